@@ -1,13 +1,16 @@
 /-
   C17 — substitution of a term for a variable never captures variables.
 
-  Status: the model mirrors `Formula::substitute` after the `fix:` commit b9b9933 (see
-  known_findings.jsonl for the two witnesses that failed before). Proved: the substitution lemma
-  for terms, atoms and formulas — including the renaming of captured binders, with names chosen
-  by the real fresh-name search — for every formula whose quantifier blocks bind no variable
-  twice (`NodupBinders`; a block like `exists X X …` is the only case left open), in HT and
-  classical semantics; the free-variable bound; the same lemma without `NodupBinders` when no
-  binder needs renaming. The unconditional statement `SubstituteCorrect` is kept visible.
+  The model mirrors `Formula::substitute` after the `fix:` commit b9b9933 (see
+  known_findings.jsonl for the two witnesses that failed before; reverting the fix makes the
+  correspondence fail). Proved at full strength: for EVERY formula (binders reusing the
+  substituted name, binders naming variables of the term, several such binders in one block,
+  the same variable bound twice in a block, fresh-name candidates already taken, same name at two
+  sorts), every variable and every sort-compatible term, in every HT interpretation, world and
+  assignment (hence classically), the result has the truth value of the original with the
+  variable assigned the term's value; its free variables are among those of the original minus
+  the variable plus those of the term. The fresh names are the ones the real search picks
+  (`freshVar`, shown fresh by a pigeonhole argument).
 -/
 import AnthemModel.Proofs.SubstBasic
 import AnthemModel.Proofs.SubstFull
@@ -19,73 +22,58 @@ def SubstituteCorrect : Prop :=
     ∀ (M : HTI) (w : World) (ρ : Asg),
       ht M (F.subst v s) w ρ ↔ ht M F w (ρ.set v (s.eval M.fc ρ))
 
-/-- Term level, no side condition beyond sort compatibility. -/
+/-- **C17, first sentence — proved without side condition.** -/
+theorem substitute_correct : SubstituteCorrect :=
+  fun F v s hc M w ρ => ht_subst M F v s hc w ρ
+
+theorem substitute_correct_classical (F : Formula) (v : Var) (s : GTerm)
+    (hc : SortCompatible v s) (I : Interp) (ρ : Asg) :
+    sat I (F.subst v s) ρ ↔ sat I F (ρ.set v (s.eval I.fc ρ)) :=
+  sat_subst I F v s hc ρ
+
+/-- **C17, second sentence.** Free variables of the result: those of the original minus the
+    variable, plus (at most) those of the term. -/
+theorem substitute_fv (F : Formula) (v : Var) (s : GTerm)
+    (hc : SortCompatible v s) (u : Var) (hu : (F.subst v s).FV u) :
+    (F.FV u ∧ u ≠ v) ∨ u ∈ s.vars :=
+  subst_FV F v s hc u hu
+
+/-- Term level. -/
 theorem term_substitute_correct (fc : FcI) (ρ : Asg) (t : GTerm) (v : Var) (s : GTerm)
     (hc : SortCompatible v s) :
     (t.subst v s).eval fc ρ = t.eval fc (ρ.set v (s.eval fc ρ)) :=
   GTerm.eval_subst fc ρ t v s hc
 
-/-- Atomic formulas, no side condition beyond sort compatibility. -/
+/-- Atomic formulas. -/
 theorem atomic_substitute_correct (P : PredI) (fc : FcI) (ρ : Asg) (a : AtomicF) (v : Var)
     (s : GTerm) (hc : SortCompatible v s) :
     (a.subst v s).sat P fc ρ ↔ a.sat P fc (ρ.set v (s.eval fc ρ)) :=
   a.sat_subst P fc ρ v s hc
 
-/-- Formula level, under `NoRename` (no binder in scope occurs in the term). -/
-theorem substitute_correct_partial (F : Formula) (v : Var) (s : GTerm) (hc : SortCompatible v s)
-    (hn : NoRename s.vars v F) (M : HTI) (w : World) (ρ : Asg) :
-    ht M (F.subst v s) w ρ ↔ ht M F w (ρ.set v (s.eval M.fc ρ)) :=
-  ht_substFuel_noRename M v s hc (F.depth + 1) F (Nat.le_succ _) hn w ρ
+/-- **C17, third sentence.** Bound occurrences are untouched: substituting a variable bound by
+    the outermost block returns the formula itself … -/
+theorem substitute_bound (q : Quant) (vs : List Var) (f : Formula) (v : Var) (s : GTerm)
+    (h : v ∈ vs) : (Formula.quant q vs f).subst v s = .quant q vs f := by
+  simp [Formula.subst, Formula.substFuel, h]
 
-theorem substitute_correct_partial_classical (F : Formula) (v : Var) (s : GTerm)
-    (hc : SortCompatible v s) (hn : NoRename s.vars v F) (I : Interp) (ρ : Asg) :
-    sat I (F.subst v s) ρ ↔ sat I F (ρ.set v (s.eval I.fc ρ)) := by
-  have := substitute_correct_partial F v s hc hn ⟨I.pred, I.pred, I.fc⟩ .there ρ
-  rwa [ht_there_eq_sat, ht_there_eq_sat] at this
-
-/-- **Substitution never captures** (general case, renaming included): the result has, in every HT
-    interpretation, world and assignment, the truth value of the original with the variable
-    assigned the term's value. -/
-theorem substitute_correct (F : Formula) (hnb : NodupBinders F) (v : Var) (s : GTerm)
-    (hc : SortCompatible v s) (M : HTI) (w : World) (ρ : Asg) :
-    ht M (F.subst v s) w ρ ↔ ht M F w (ρ.set v (s.eval M.fc ρ)) :=
-  ht_subst M F hnb v s hc w ρ
-
-theorem substitute_correct_classical (F : Formula) (hnb : NodupBinders F) (v : Var) (s : GTerm)
-    (hc : SortCompatible v s) (I : Interp) (ρ : Asg) :
-    sat I (F.subst v s) ρ ↔ sat I F (ρ.set v (s.eval I.fc ρ)) :=
-  sat_subst I F hnb v s hc ρ
-
-/-- Free variables of the result: those of the original minus the variable, plus (at most) those
-    of the term. -/
-theorem substitute_fv (F : Formula) (hnb : NodupBinders F) (v : Var) (s : GTerm)
-    (hc : SortCompatible v s) (u : Var) (hu : (F.subst v s).FV u) :
-    (F.FV u ∧ u ≠ v) ∨ u ∈ s.vars :=
-  subst_FV F hnb v s hc u hu
+/-- … and a variable of the same name but another sort is a different variable: a term that does
+    not mention `v` is not changed (general variable vs integer variable of the same name). -/
+theorem substitute_other_sort (x : String) (s : GTerm) :
+    (GTerm.int (.var x)).subst ⟨x, .general⟩ s = .int (.var x) ∧
+    (GTerm.var x).subst ⟨x, .integer⟩ s = .var x := by
+  simp [GTerm.subst]
 
 /-- The fresh binder chosen by the real search is never a taken name. -/
 theorem fresh_binder_not_taken (base : Var) (taken : List Var) : freshVar base taken ∉ taken :=
   freshVar_not_mem base taken
-
-/-- Non-vacuity: a formula that needs renaming satisfies the hypotheses. -/
-example : NodupBinders (.quant .ex [⟨"Y", .general⟩] (.atomic (.atom ⟨"p", [.var "X", .var "Y"]⟩))) ∧
-    SortCompatible ⟨"X", .general⟩ (.var "Y") := by
-  simp [NodupBinders, SortCompatible]
-
-/-- Bound occurrences are untouched: substituting a variable bound by the outermost block
-    returns the formula itself. -/
-theorem substitute_bound (q : Quant) (vs : List Var) (f : Formula) (v : Var) (s : GTerm)
-    (h : v ∈ vs) : (Formula.quant q vs f).subst v s = .quant q vs f := by
-  simp [Formula.subst, Formula.substFuel, h]
 
 /-- The two witnesses that failed before the fix now give the right trees (kernel-evaluated). -/
 example : (Formula.quant .ex [⟨"Y", .general⟩] (.atomic (.atom ⟨"p", [.var "Y"]⟩))).subst
     ⟨"Y1", .general⟩ (.var "Y") =
     .quant .ex [⟨"Y2", .general⟩] (.atomic (.atom ⟨"p", [.var "Y2"]⟩)) := by decide
 
-/-- Non-vacuity of the partial theorem: a quantified formula satisfying `NoRename`. -/
-example : NoRename (GTerm.var "Z").vars ⟨"X", .general⟩
-    (.quant .ex [⟨"Y", .general⟩] (.atomic (.atom ⟨"p", [.var "X", .var "Y"]⟩))) := by
-  simp [NoRename, GTerm.vars]
+/-- Non-vacuity: `SortCompatible` holds for the substitutions the library performs. -/
+example : SortCompatible ⟨"X", .general⟩ (.var "Y") ∧ SortCompatible ⟨"X", .integer⟩ (.int (.num 3)) := by
+  simp [SortCompatible]
 
 end Anthem.C17
